@@ -149,6 +149,73 @@ theorem accepted_again_after_expiry (w : Nat) (pre mid1 mid2 : List (Op κ)) (k 
   rw [hs] at hlast
   exact hlast
 
+/-- **a re-accepted sentinel proves the clean-up ran**: `z` is known with expiry `ez`, every entry of `p` expires no later
+    (`ep ≤ ez`), `p` does not arrive in `ops`, and the `j`-th operation of `ops` is an accepted arrival of `z`.  Then `p` is
+    forgotten by then: a clean-up removes *every* entry that expired before its tick, however many there are.  (This is the
+    inference the `volume` cases of the harness make on the real repository – without any wall-clock bound.) -/
+theorem sentinel_reaccepted_probe_forgotten (w : Nat) (r : Repo κ) (z p : κ) (ez ep : Nat) (ops : List (Op κ)) (j tj : Nat)
+    (hz : (z, ez) ∈ r) (hp : AllAt r p ep) (hle : ep ≤ ez) (hno : ∀ t, Op.arrive p t ∉ ops)
+    (hj : acceptedFrom w r ops j z tj) : absent (run w r (ops.take j)).1 p := by
+  induction ops generalizing r j with
+  | nil => simp [acceptedFrom] at hj
+  | cons o rest ih =>
+    cases j with
+    | zero =>
+      rw [acceptedFrom_cons_zero] at hj
+      have : present r z = true := (present_iff r z).mpr ⟨ez, hz⟩
+      rw [this] at hj; exact absurd hj.2 (by simp)
+    | succ j =>
+      rw [acceptedFrom_cons_succ] at hj
+      have hno' : ∀ t, Op.arrive p t ∉ rest := fun t hm => hno t (List.mem_cons_of_mem _ hm)
+      rw [List.take_succ_cons, run_cons]
+      cases o with
+      | arrive k' t =>
+        have hne : k' ≠ p := by intro hk; subst hk; exact hno t (List.mem_cons_self)
+        apply ih _ j (by rw [step_arrive]; exact isDup_mem_mono w r z k' t ez hz) _ hno' hj
+        rw [step_arrive]
+        unfold isDup; split
+        · exact hp
+        · intro e' hm
+          rcases List.mem_cons.mp hm with heq | hm
+          · exact absurd (Prod.mk.inj heq).1.symm hne
+          · exact hp e' hm
+      | clean tick tm =>
+        rw [step_clean] at hj ⊢
+        by_cases hlt : ez < tick
+        · exact absent_run w _ p (rest.take j) (cleanOut_expired r p ep tick hp (by omega))
+            (fun t hm => hno' t (List.mem_of_mem_take hm))
+        · exact ih _ j ((mem_cleanOut r tick (z, ez)).mpr ⟨hz, hlt⟩)
+            (fun e' hm => hp e' ((mem_cleanOut r tick _).mp hm).1) hno' hj
+
+/-- … so the probe's next arrival is accepted -/
+theorem sentinel_reaccepted_probe_accepted (w : Nat) (r : Repo κ) (z p : κ) (ez ep : Nat) (ops : List (Op κ)) (j tj t : Nat)
+    (hz : (z, ez) ∈ r) (hp : AllAt r p ep) (hle : ep ≤ ez) (hno : ∀ t, Op.arrive p t ∉ ops) (hzp : z ≠ p)
+    (hj : acceptedFrom w r ops j z tj) :
+    acceptedFrom w r (ops.take (j + 1) ++ [.arrive p t]) (j + 1) p t := by
+  have hlen : j < ops.length := by
+    rcases Nat.lt_or_ge j ops.length with h | h
+    · exact h
+    · have := hj.1; rw [List.getElem?_eq_none h] at this; cases this
+  have hoj : ops[j]? = some (.arrive z tj) := hj.1
+  have htake : ops.take (j + 1) = ops.take j ++ [.arrive z tj] := by
+    rw [List.take_add_one, hoj]; rfl
+  have hl : (ops.take (j + 1)).length = j + 1 := by simp; omega
+  have := acceptedFrom_append_right w r (ops.take (j + 1)) [.arrive p t] 0 p t
+  rw [hl, Nat.add_zero] at this
+  rw [this, acceptedFrom_cons_zero]
+  refine ⟨rfl, ?_⟩
+  rw [present_false_iff, htake, run_append]
+  have habs := sentinel_reaccepted_probe_forgotten w r z p ez ep ops j tj hz hp hle hno hj
+  simp only [run_cons, run_nil, step_arrive]
+  intro e hm
+  have hm' : (p, e) ∈ (isDup w (run w r (ops.take j)).1 z tj).1 := hm
+  unfold isDup at hm'
+  split at hm'
+  · exact habs e hm'
+  · rcases List.mem_cons.mp hm' with heq | hm'
+    · exact hzp (Prod.mk.inj heq).1.symm
+    · exact habs e hm'
+
 /-! ## concurrency -/
 
 /-- **exactly one**: take any list of operations – arrivals of any keys from any number of goroutines in any order,
@@ -595,6 +662,9 @@ example : verdictsOf "a" (exOps.filter (relevant "a")) (run 10 [] (exOps.filter 
 example : accepted 10 ([] ++ [arrive "a" 0]) 0 "a" 0 := by decide
 example : ∀ x, x < 4 → ¬ acceptedFrom 10 (run 10 [] ([] ++ [arrive "a" 0])).1
     [arrive "b" 1, arrive "a" 5, clean 4 6, arrive "a" 12] x "a" (match x with | 1 => 5 | _ => 12) := by decide
+-- `sentinel_reaccepted_probe_forgotten`: probe "p" (expiry 10) and sentinel "z" (expiry 12) are known, "z" is accepted again at index 2
+example : acceptedFrom 10 [("z", 12), ("p", 10)] [arrive "q" 11, clean 13 13, arrive "z" 14] 2 "z" 14 := by decide
+example : (run 10 [("z", 12), ("p", 10)] ([arrive "q" 11, clean 13 13, arrive "z" 14].take 2)).1 = [("q", 21)] := by decide
 -- `concurrent_exactly_one`: five arrivals of "a" and two of "b" in one window, a clean-up in between
 def exConc : List (Op String) := [arrive "a" 3, arrive "b" 3, arrive "a" 3, clean 3 4, arrive "a" 4, arrive "b" 5, arrive "a" 5, arrive "a" 9]
 example : WellTimedFrom 3 exConc ∧ (∀ o ∈ exConc, o.time ≤ 3 + 10) := by decide
